@@ -1304,6 +1304,21 @@ def record_field_stores(f, g, smap, field, good):
     return sets, odd
 
 
+def record_method_writes(f, g, smap):
+    """calls which change a record of self._pilots (or the table) through a
+    method: `self._pilots[K].update({..})` - fields the recognisers of single
+    stores do not see"""
+    out = []
+    for x in calls_in(f.node):
+        if isinstance(x.func, ast.Attribute) and id(x) in smap and \
+                x.func.attr in ('update', '__setitem__'):
+            r = resolve_local(g, x.func.value, smap[id(x)].id)
+            if is_self_attr(r, '_pilots') or isinstance(r, ast.Subscript) \
+                    and is_self_attr(r.value, '_pilots'):
+                out.append(x)
+    return out
+
+
 def stored_before(g, sets, node):
     """one of the groups of stores takes effect for every element before the
     node: a loop which every path to the node runs and whose every completed
@@ -1366,6 +1381,11 @@ def _control_cb(prog, rep, rid, added, removed):
                 f, g, smap, 'role',
                 lambda v, sn, K: prog.fold(f.module, v, f.cls) == role or None)
             okay = stored_before(g, sets, node)
+            if not okay and record_method_writes(f, g, smap):
+                raise AnalysisError(
+                    'UNRECOGNISED-IDIOM %s: `%s` changes a pilot record '
+                    'through a method call' % (f.where, short(
+                        record_method_writes(f, g, smap)[0], 60)))
             rep.check(okay, rid, f, 'control_cb: role = %s is stored for every '
                       'pilot of the command before `%s`' % (rname, short(c, 40)),
                       construct='%s [role %s first]' % (short(c, 60), rname),
@@ -1416,13 +1436,7 @@ def r12_13(prog, rep, rid='R12.13'):
         node = smap[id(c)]
         sets, odd = record_field_stores(f, g, smap, 'pilot', good)
         okay = stored_before(g, sets, node)
-        for x in calls_in(f.node):
-            if isinstance(x.func, ast.Attribute) and id(x) in smap and \
-                    x.func.attr in ('update', 'setdefault', '__setitem__'):
-                r = resolve_local(g, x.func.value, smap[id(x)].id)
-                if is_self_attr(r, '_pilots') or isinstance(r, ast.Subscript) \
-                        and is_self_attr(r.value, '_pilots'):
-                    odd.append(x)
+        odd += record_method_writes(f, g, smap)
         if not okay and odd:
             raise AnalysisError(
                 "UNRECOGNISED-IDIOM %s: `%s` stores a 'pilot' entry the "
@@ -3419,6 +3433,20 @@ def r12_14(prog, rep, rid='R12.14'):
                         'UNRECOGNISED-IDIOM %s: `%s` is guarded by `%s`, a test '
                         'of self._pids the recogniser does not know'
                         % (f.where, short(u, 40), short(odd, 60)))
+                if not how:
+                    # emptiness handled as an exception of its own
+                    for t in walk(f.node):
+                        if isinstance(t, ast.Try) and any(
+                                x is u for b in t.body for x in walk(b)) and \
+                                any(nm in unparse(h.type) for h in t.handlers
+                                    if h.type is not None
+                                    for nm in ('IndexError', 'LookupError',
+                                               'ZeroDivisionError')):
+                            raise AnalysisError(
+                                'UNRECOGNISED-IDIOM %s: `%s` is not guarded '
+                                'by an emptiness test but lies in a try '
+                                'statement which handles the index error '
+                                'itself' % (f.where, short(u, 40)))
                 # what is tested instead (for the message)
                 other = None
                 for a, pol, tid in guard_facts(g, un.id):
